@@ -361,6 +361,37 @@ func runC17(w *World, r *Report) {
 		}
 	}
 
+	// a repeated save changes nothing: the entry and the two lists were written together and expire together; rewriting
+	// one of them on the "already exists" answer lets it outlive the others
+	r.rule("repeated-save-writes-nothing", "in SaveAwaitedTransaction the edge on which the transaction's entry is found to exist reaches the return without any cache write", 1)
+	if sv := w.Func("cache", "Hippocampus", "SaveAwaitedTransaction"); sv != nil {
+		var firstGet ssa.CallInstruction
+		instrsOf(sv, func(in ssa.Instruction) {
+			if c, ok := in.(ssa.CallInstruction); ok && firstGet == nil && memCall(c) == "Get" {
+				firstGet = c
+			}
+		})
+		if firstGet == nil {
+			r.bad("repeated-save-writes-nothing", "SaveAwaitedTransaction/exists-test", w.Pos(sv.Pos()), "the existence test of the entry is found", "no Get")
+		} else {
+			writes := 0
+			for _, e := range passErrNil(firstGet) {
+				walkFrom(nil, e.To(), nil, func(x ssa.Instruction) bool {
+					if c, ok := x.(ssa.CallInstruction); ok {
+						switch memCall(c) {
+						case "Set", "Delete", "Append":
+							writes++
+							return true
+						}
+					}
+					_, isRet := x.(*ssa.Return)
+					return isRet
+				})
+			}
+			r.check(writes == 0 && len(passErrNil(firstGet)) > 0, "repeated-save-writes-nothing", "SaveAwaitedTransaction/exists-edge", lineOf(w, firstGet), "the 'already exists' answer leaves the cache as it was", fmt.Sprintf("%d cache writes are reachable from the edge on which the entry exists", writes))
+		}
+	}
+
 	// a list helper does not build its result inside the list it is still reading (bytes.Split returns sub-slices of its
 	// argument: writing into a reslice of that argument rewrites the parts not yet visited)
 	r.rule("list-rebuilt-outside-its-input", "in the cache package no function appends into, or stores through, a reslice of a []byte parameter that it also splits and walks (the in-place filter overwrites entries it has not read yet when a separator is put in front)", 0)
